@@ -161,7 +161,7 @@ def canon_impl_value(v, charset="latin1"):
     if v is None or isinstance(v, int) and not isinstance(v, bool):
         return v
     if isinstance(v, str):
-        return v.encode(charset)
+        return v.encode(charset, "backslashreplace")
     if isinstance(v, float):
         return ("float", v)
     return ("other", repr(v))
@@ -208,7 +208,7 @@ def impl_parse_com_query(data: bytes, qa: bool, charset=CharacterSet.latin1):
         r = packets.parse_com_query(capabilities=caps, client_charset=charset, data=data)
     except Exception as e:  # noqa
         return ("Err", err_class(e))
-    attrs = [(k.encode(charset.codec), canon_impl_value(v, charset.codec)) for k, v in r.query_attrs.items()]
+    attrs = [(k.encode(charset.codec, 'backslashreplace'), canon_impl_value(v, charset.codec)) for k, v in r.query_attrs.items()]
     return ("Ok", (r.sql.encode(charset.codec), attrs))
 
 
@@ -233,7 +233,7 @@ def impl_execute(data: bytes, qa: bool, stmts: dict, charset=CharacterSet.latin1
         r = packets.parse_com_stmt_execute(capabilities=caps, client_charset=charset, data=data, get_stmt=get_stmt)
     except Exception as e:  # noqa
         return ("Err", err_class(e))
-    attrs = [(k.encode(charset.codec), canon_impl_value(v, charset.codec)) for k, v in r.query_attrs.items()]
+    attrs = [(k.encode(charset.codec, 'backslashreplace'), canon_impl_value(v, charset.codec)) for k, v in r.query_attrs.items()]
     return ("Ok", (r.sql.encode(charset.codec), attrs, bool(r.use_cursor)))
 
 
